@@ -26,6 +26,14 @@ T = {
                 technique="runtime monitor: lock-step comparison of real Grid objects on simulated ranks with a one-array numpy model after every operation; exhaustive operation sequences to bounded length plus random histories; refusals observed",
                 text="All operation sequences up to length 4 (quick) / 6 (thorough) over a 7-symbol alphabet on small handler and swapper configurations plus long random histories; layout name and data block compared with the model after every operation on every rank.",
                 note=SIM + "; exhaustive only up to the stated history length"),
+    "C05": dict(level="exploration", engine="simmpi+simh5+driver", design="3/C05",
+                technique="runtime differential monitor: global fields assembled from all simulated ranks after every stage (driver-like stepper on random data with forced process grids) and the real driver's checkpoint files compared between P ranks and the serial run",
+                text="Every stage of the quasi-neutrality pipeline and of the Strang step observed on forced process grids (1,P),(P,1),(a,b) with rotational transform 0 and 0.8 and random global state; the real fullSimulation.main() under simulated MPI + mpio emulation compared between process counts.",
+                note=SIM + "; mpio emulation; expected difference is exactly 0, tolerance 1000*eps*scale"),
+    "C06": dict(level="exploration", engine="simmpi scheduler", design="3/C06",
+                technique="runtime monitors of the simulated MPI layer (collective matcher, logical deadlock detector, unmatched-rendezvous check, per-rank trace comparison) under enumerated and seeded arrival orders and across interpreter hash seeds (fresh processes)",
+                text="Rank programs on the real code (layout managers, grid reductions and block gathers, diagnostics, set-up and saving with a plot-only rank, the driver); all arrival orders enumerated for small 2-rank programs, thousands of distinct orders otherwise; traces and route maps compared across 8-48 hash seeds.",
+                note=SIM + "; a real MPI could additionally hang on mismatches that the matcher reports as errors"),
     "C07": dict(level="exploration", engine="refmath", design="3/C07",
                 technique="runtime differential oracle: every evaluation entry point of the real spline classes compared with an independent de Boor/scipy reference on the knot vector the path really uses, over generated spaces, coefficient vectors and hostile points",
                 text="Hundreds (quick) to tens of thousands (thorough) of generated spline spaces; every entry point, derivative order and point kind compared with an independent evaluator at c*eps*local scale; basis identities; fast vs general path.",
@@ -70,6 +78,10 @@ T = {
                 technique="runtime oracle: sums over simulated ranks of the real local diagnostics, Grid.getMin/getMax at every drawing rank and DiagnosticCollector rows after reduce() vs serial quadrature / min / max of the assembled global random field; reductions combined in seeded arrival order",
                 text="Generated grids and process grids up to 6 ranks, all layouts incl. replicated ones (one replica set), unit field vs analytic volume, slot bookkeeping of the collector for save intervals 1-4.",
                 note=SIM + "; replicated layouts: sum over one replica set"),
+    "C18": dict(level="exploration", engine="simmpi+simh5+driver", design="3/C18",
+                technique="runtime monitor: bitwise round trip of checkpoints through an mpio-emulating h5py layer between different process counts, hyperslab partition check, constants round trip under key permutations and symbolic expressions, checkpoint selection, split-vs-unsplit runs of the real driver",
+                text="Writer/reader process counts 1-6, all three layouts plus the complex potential, restart set-up with and without layout change; constants with perturbed values and non-midpoint peak radius; checkpoint times of 1-7 digits; driver continuity for save intervals 1-4 and all splits N+M<=4 on 1, 2 and 4 ranks.",
+                note=SIM + "; parallel HDF5 is emulated (collective metadata with equal arguments, disjoint independent hyperslab writes)"),
     "C20": dict(level="exploration", engine="direct+simmpi", design="3/C20",
                 technique="runtime oracle: brute-force divisor enumeration (exhaustive box + random), sys.monitoring line budget for termination, layouts built and transposed on the chosen grid under simulated MPI",
                 text="Exhaustive comparison with brute force inside a bounded box, random sampling far beyond, termination judged in executed lines; the chosen grid is used to build and exercise the standard layouts.",
@@ -114,6 +126,10 @@ def main():
              "kind_free_text": "simulated mpi4py: threads as ranks, baton scheduler (arrival-order control), collective matcher, logical deadlock detector, per-rank trace"},
             {"name": "runner", "path": "vlib/runner.py", "serves_properties": ALL,
              "kind_free_text": "sharded subprocess case runner, three-valued verdicts, evidence writer, known-findings classifier"},
+            {"name": "simh5", "path": "vlib/simh5.py", "serves_properties": ["C05", "C06", "C18"],
+             "kind_free_text": "mpio emulation for h5py.File(driver='mpio', comm=...): collective open/create/attrs/close with argument agreement, hyperslab log"},
+            {"name": "refmath", "path": "vlib/refmath.py", "serves_properties": ["C07", "C08", "C09", "C10", "C11", "C12", "C13", "C14", "C15", "C16"],
+             "kind_free_text": "independent reference mathematics: de Boor, Cox-de Boor (also exact rationals), Gauss-Legendre, FD/Lagrange weights, dense Galerkin assembly"},
             {"name": "stepcount", "path": "vlib/stepcount.py", "serves_properties": ["C12", "C20"],
              "kind_free_text": "sys.monitoring line-event counters / budgets (termination in logical steps)"},
         ],
